@@ -360,17 +360,22 @@ func init() {
 			if ln {
 				sb.WriteByte('\n')
 			}
-			// Sprint adds spaces between operands when neither is a string;
-			// only the all-strings / single operand forms are modelled exactly.
 			if !ln && len(args) > 1 {
-				for _, x := range args {
-					if it, ok := x.(iface); ok && it.t != nil {
-						if b, ok := it.t.Underlying().(*types.Basic); !ok || b.Info()&types.IsString == 0 {
-							if fr.i.findMethod(it.t, "Error") == nil && fr.i.findMethod(it.t, "String") == nil {
-								panic(unsupported("fmt.Sprint with several non-string operands"))
-							}
-						}
+				// Sprint adds a space between operands when neither is a string.
+				isString := func(x value) bool {
+					it, ok := x.(iface)
+					if !ok || it.t == nil {
+						return false
 					}
+					b, ok := it.t.Underlying().(*types.Basic)
+					return ok && b.Info()&types.IsString != 0
+				}
+				sb.Reset()
+				for k := range args {
+					if k > 0 && !isString(args[k-1]) && !isString(args[k]) {
+						sb.WriteByte(' ')
+					}
+					sb.WriteString("%v")
 				}
 			}
 			s, _ := fr.symSprintf(sb.String(), args)
